@@ -4,7 +4,7 @@ from .common import emit_struct, emit_method, import_method
 from .u6_root import prelude_types
 
 NAME = 'u8_hermes'
-PROPS = ['C14', 'C05']
+PROPS = ['C14', 'C05', 'C17']
 T = 'src/types.rs'
 H = 'src/hermes.rs'
 
@@ -14,6 +14,8 @@ MUTANTS = [
     ('hermes::SourceMapHermes::get_original_function_name', r'lookup_token\(0, bytecode_offset\)', 'lookup_token(bytecode_offset, 0)'),
     ('hermes::SourceMapHermes::get_scope_for_token', 'u64::from\\(token\\.get_src_line\\(\\)\\) \\+ 1', 'u64::from(token.get_src_line())'),
     ('hermes::SourceMapHermes::get_scope_for_token', 'mapping\\.name_index as usize', 'mapping.name_index as usize + 1'),
+    ('types::DecodedMap::get_original_function_name', r'if line != 0 \{', 'if line != 0 && col == 0 {'),
+    ('types::DecodedMap::get_original_function_name', r'smi\.get_original_function_name\(line, col, minified_name\?, source_view\?\)', 'smi.get_original_function_name(col, line, minified_name?, source_view?)'),
 ]
 
 
@@ -47,3 +49,31 @@ def build(u):
     u.spec('sm_lookup.rs')
     import_method(u, T, r'SourceMap\b', 'lookup_token', 'types::SourceMap::lookup_token', 'u2_lookup.ctr', 'u2_lookup')
     emit_method(u, H, r'SourceMapHermes\b', 'get_original_function_name', 'hermes::SourceMapHermes::get_original_function_name')
+
+    # the dispatch of DecodedMap::get_original_function_name: regular and index maps need both optional arguments, Hermes maps answer on line 0 only
+    u.raw('stubs for the dispatch', '''//@@ prelude dispatch_stubs
+//# assumes: nothing about SourceMap:: / SourceMapIndex::get_original_function_name here beyond their being functions of their arguments (u20 has the first; the second is known finding D18); SourceMapIndex is opaque
+#[verifier::external_body]
+pub struct SourceMapIndex { _x: u8 }
+pub uninterp spec fn gofn_regular<'a>(sm: &'a SourceMap, line: u32, col: u32, minified_name: &str, sv: &SourceView) -> Option<&'a str>;
+pub uninterp spec fn gofn_index<'a>(smi: &'a SourceMapIndex, line: u32, col: u32, minified_name: &str, sv: &SourceView) -> Option<&'a str>;
+impl SourceMap {
+    #[verifier::external_body]
+    pub fn get_original_function_name(&self, line: u32, col: u32, minified_name: &str, sv: &SourceView) -> (r: Option<&str>)
+        ensures r == gofn_regular(self, line, col, minified_name, sv)
+    { unimplemented!() }
+}
+impl SourceMapIndex {
+    #[verifier::external_body]
+    pub fn get_original_function_name(&self, line: u32, col: u32, minified_name: &str, sv: &SourceView) -> (r: Option<&str>)
+        ensures r == gofn_index(self, line, col, minified_name, sv)
+    { unimplemented!() }
+}
+//@@ endprelude
+''')
+    text, origin = u.get_item_text(T, r'(?m)^pub enum DecodedMap\b', 'enum DecodedMap')
+    text = re.sub(r'(?m)^#\[derive\([^\]]*\)\]\n', '', text)
+    text = re.sub(r'(?m)^\s*//[/!][^\n]*\n', '', text)
+    u.count('R-derive')
+    u.emit_text('types::DecodedMap', text, origin)
+    emit_method(u, T, r'DecodedMap\b', 'get_original_function_name', 'types::DecodedMap::get_original_function_name')
